@@ -410,7 +410,7 @@ pub fn run(args: &Args) -> i32 {
     let mut rep = Report::new("C14", args.tier, args.seed, "model_checking");
     rep.exhaustive = true;
     rep.rule = format!(
-        "programs: every client call sequence of length <= {cl} over {{send_data(empty), send_data(1 byte), send_data(two-chunk Buf), send_trailers, finish, stop_stream}} after send_request (against a fixed server program), and every server call sequence of length <= {sl} over {{send_response, the three send_data, send_trailers, finish, stop_stream, shutdown(0), shutdown(1)}} (against a fixed client program); each call awaited; x (grease on/off) x (extensions configured on/off); plus a values family: max_field_section_size and max_webtransport_sessions from {{0, 63, 64, 16383, 16384, 2^30-1, 2^30, 2^62-1}} and a server shutdown(n) for n in {{0, 15, 16, 4095, 4096, 2^28-1, 2^28}} (every varint form boundary in SETTINGS values and GOAWAY identifiers). Each program under the default transport, the uniform one-byte-per-write schedule, and (programs of length <= 3) every write-acceptance pattern with <= {bound} deviations, a deviation being one poll_ready/poll_send answer that accepts 0, 1, 2, header-boundary-1, header-boundary, header-boundary+1 or n-1 bytes and then returns Pending. Oracle: refimpl parses the complete byte log of every stream both endpoints wrote (stream types, SETTINGS first and only allowed control frames, complete frames whose length equals the bytes that follow, grease form of reserved ids, no HTTP/2 type or setting, GOAWAY identifiers never increasing, HEADERS payloads decodable, DATA payload = the program's bytes). states = distinct transport fingerprints; non-trivial = executions with a partial write."
+        "programs: every client call sequence of length <= {cl} over {{send_data(empty), send_data(1 byte), send_data(two-chunk Buf), send_trailers, finish, stop_stream}} after send_request (against a fixed server program), and every server call sequence of length <= {sl} over {{send_response, the three send_data, send_trailers, finish, stop_stream, shutdown(0), shutdown(1)}} (against a fixed client program); each call awaited; x (grease on/off) x (extensions configured on/off); plus a values family: max_field_section_size and max_webtransport_sessions from {{0, 63, 64, 16383, 16384, 2^30-1, 2^30, 2^62-1}} and a server shutdown(n) for n in {{0, 15, 16, 4095, 4096, 2^28-1, 2^28, 2^60-2, 2^60-1, 2^60, usize::MAX}} (every varint form boundary in SETTINGS values and GOAWAY identifiers, and the counts at which the identifier saturates). Each program under the default transport, the uniform one-byte-per-write schedule, and (programs of length <= 3) every write-acceptance pattern with <= {bound} deviations, a deviation being one poll_ready/poll_send answer that accepts 0, 1, 2, header-boundary-1, header-boundary, header-boundary+1 or n-1 bytes and then returns Pending. Oracle: refimpl parses the complete byte log of every stream both endpoints wrote (stream types, SETTINGS first and only allowed control frames, complete frames whose length equals the bytes that follow, grease form of reserved ids, no HTTP/2 type or setting, GOAWAY identifiers never increasing, HEADERS payloads decodable, DATA payload = the program's bytes). states = distinct transport fingerprints; non-trivial = executions with a partial write."
     );
     rep.assumptions = vec!["cancelling a pending write future is outside the documented pattern (DESIGN.md 6)".into(), "the order of HEADERS/DATA on a request stream is the application's responsibility and not judged here".into()];
     rep.bound_note = format!("client programs <= {cl} calls, server programs <= {sl} calls, deviation bound {bound}");
@@ -429,11 +429,11 @@ pub fn run(args: &Args) -> i32 {
     }
     // values family: numbers around every varint form boundary in SETTINGS values and GOAWAY identifiers
     let bvals: Vec<u64> = vec![0, 63, 64, 16383, 16384, (1 << 30) - 1, 1 << 30, (1 << 62) - 1];
-    let ns: Vec<usize> = vec![0, 15, 16, 4095, 4096, (1 << 28) - 1, 1 << 28];
+    let ns: Vec<usize> = vec![0, 15, 16, 4095, 4096, (1 << 28) - 1, 1 << 28, (1 << 60) - 2, (1 << 60) - 1, 1 << 60, usize::MAX];
     let mut n_values = 0;
     for (i, &v) in bvals.iter().enumerate() {
         for (j, &n) in ns.iter().enumerate() {
-            if !thorough && (i + j) % 2 == 1 && v != 16384 && n != 4096 {
+            if !thorough && (i + j) % 2 == 1 && v != 16384 && n != 4096 && n < (1 << 60) - 2 {
                 continue;
             }
             for grease in [false, true] {
